@@ -689,6 +689,24 @@ func (o *c15Obs) afterFault(w *wWorld, st *wStep, added map[string][]c15Msg) *ki
 				valid = !(st.User == c.origUser && st.Sess != c.origSess)
 			}
 			_ = attached
+			if valid && !hasCall && c.calleeSess >= 0 && (st.Sess == c.origSess || st.Sess == c.calleeSess) {
+				// the other party of an established call is told that it is over, whether or not the
+				// call's final message could be saved
+				other := c.origSess
+				if st.Sess == c.origSess {
+					other = c.calleeSess
+				}
+				_, otherAtt := o.preAtt[other][route]
+				if otherAtt && other < len(w.sess) && w.sess[other] != nil && !w.sess[other].pause.Load() && !w.sess[other].isClosed() {
+					told := false
+					for _, f := range st.Frames[other] {
+						told = told || (f.Info != nil && f.Info.What == "call" && f.Info.Event == "hang-up")
+					}
+					if !told {
+						return kit.V("hang-up-not-relayed-after-store-failure", "hang-up of the established call %s on %s by session %d met a store failure: the call was dropped but session %d, the other party, was not told", c15Str(c), route, st.Sess, other)
+					}
+				}
+			}
 			if valid && hasCall {
 				return kit.V("call-not-ended-after-store-failure", "valid hang-up of call %s on %s by session %d met a store failure: the call is still held by the topic (every later invitation is answered busy)", c15Str(c), route, st.Sess)
 			}
